@@ -35,7 +35,7 @@ impl Monitor for C06 {
         true
     }
     fn gens(&self, tier: Tier) -> Vec<Gen> {
-        vec![gen("single-fault", tier.pick(600, 200_000, 3)), gen("double-fault", tier.pick(60, 30_000, 0)), gen("expiry", tier.pick(300, 50_000, 2)), gen("long-silence", tier.pick(54, 2_000, 0))]
+        vec![gen("small-buffer", tier.pick(270, 27_000, 0)), gen("single-fault", tier.pick(600, 200_000, 3)), gen("double-fault", tier.pick(60, 30_000, 0)), gen("expiry", tier.pick(300, 50_000, 2)), gen("long-silence", tier.pick(54, 2_000, 0))]
     }
     fn rule(&self) -> String {
         "single-fault: a base history of 3-10 transactions over {silent, RX1 hit, RX2 hit, invalid frame, garbage, Class C downlink, confirmed+ACK, confirmed silent, oversized frame in RX1/RX2 (also after a confirmed uplink), RX1 hit carrying LinkADRReq with NbTrans 2..15 and other MAC commands} is first run fault-free to count its K radio calls, then re-run K times with a radio error injected at call k (tx/setup_rx/rx_single/rx_continuous/low_power, nb: TxRequest/RxRequest/CancelRx/Phy), the application carrying on with the next sends; double-fault: two fault positions (12 random pairs and every pair of consecutive radio calls); expiry: sessions starting at 2^32-4..2^32-1; long-silence: 100-170 unanswered uplinks in a row (the ADR back-off bookkeeping at 64/96/128 unanswered uplinks, at the data-rate floor). Every data frame handed to the radio is decoded by the reference codec; counters must be strictly increasing until SessionExpired. Class = (front-end, history shape, fault call kind, fault position class, start class).".into()
@@ -58,6 +58,11 @@ impl Monitor for C06 {
         let front = FRONTS[(idx % 3) as usize];
         let reg = regions::ALL[((idx / 3) % 9) as usize];
         match g {
+            "small-buffer" => match (idx / 27) % 3 {
+                0 => small_buffer::<32>(reg, rng, col),
+                1 => small_buffer::<64>(reg, rng, col),
+                _ => small_buffer::<100>(reg, rng, col),
+            },
             "single-fault" | "double-fault" => {
                 let start = *rng.pick(&[0u32, 0, 0xFFFD, 0xFFFE, 0x1_FFFD, 0x7FFF_FFFE]);
                 let n = rng.range(3, 10) as usize;
@@ -359,4 +364,87 @@ fn run_history(front: Front, reg: regions::Reg, start: u32, steps: &[Step], faul
         prev = Some((u.fcnt, bytes.clone()));
     }
     Some(calls)
+}
+
+
+/// State-machine devices built with a small radio buffer (the const generic N): frames longer than the
+/// buffer but within the window's size limit, authentic or not, are heard in RX1 / RX2 between ordinary
+/// transactions. Every data frame handed to the radio is decoded; counters must strictly increase.
+fn small_buffer<const N: usize>(reg: crate::regions::Reg, rng: &mut Prng, col: &mut Collector) {
+    let mut d: SmallNb<N> = SmallNb::new(reg, rng);
+    // the fastest uplink rate: its windows admit frames far longer than the buffer
+    let drs = crate::c12::uplink_drs(reg);
+    let dr = *drs.iter().max().unwrap();
+    d.dev.set_datarate(lorawan_device::region::DR::from(dr));
+    let n = rng.range(5, 12);
+    let mut last: Option<u32> = None;
+    let mut up_min = 0u32;
+    let mut fdown = 0u32;
+    let mut trace: Vec<String> = vec![];
+    let mut prev_bytes: Option<Vec<u8>> = None;
+    for i in 0..n {
+        let mut script = Script::silent();
+        let what = rng.below(5);
+        // a frame longer than the buffer: noise, or an authentic downlink with a long payload
+        let long = |rng: &mut Prng, fdown: u32| -> Vec<u8> {
+            let len = N + 1 + rng.below(20) as usize;
+            if rng.bool() {
+                let mut v = rng.bytes(len);
+                v[0] = 0x60;
+                v
+            } else {
+                d_net_downlink(&d.net, fdown + 1, len)
+            }
+        };
+        match what {
+            0 => {}
+            1 => {
+                fdown += 1;
+                script.rx1.push(d.net.downlink(&Down { fcnt: fdown, port: Some(5), payload: &[1, 2], ..Default::default() }));
+            }
+            2 => script.rx1.push(long(rng, fdown)),
+            3 => script.rx2.push(long(rng, fdown)),
+            _ => {
+                script.rx1.push(long(rng, fdown));
+                script.rx2.push(long(rng, fdown));
+            }
+        }
+        if what >= 2 {
+            col.event("frames_longer_than_buffer");
+        }
+        let ev0 = d.ev_len();
+        let data = rng.bytes_below(4);
+        let r = d.transact(Action::Send { data: &data, port: 3, confirmed: rng.chance(1, 4) }, &script);
+        trace.push(format!("{}:{}", ["silent", "rx1-hit", "rx1-long", "rx2-long", "both-long"][what as usize], r.kind()));
+        if let Resp::Panic(m, l) = &r {
+            col.violation(&format!("C06|panic|small-buffer|{}", short_loc(l)), "device panicked", json!({"msg": m, "loc": l, "buffer": N, "trace": trace}));
+            return;
+        }
+        for bytes in d.tx_since(ev0) {
+            let Some(u) = d.net.decode_uplink(&bytes, up_min) else {
+                // a counter below the last one does not decode with `min` = last + 1: try from 0
+                if let Some(u0) = d.net.decode_uplink(&bytes, 0) {
+                    col.violation(
+                        &format!("C06|counter-not-increasing|small-buffer|nb|buf={}|{}", N, if prev_bytes.as_ref() == Some(&bytes) { "same-bytes" } else { "different-bytes" }),
+                        "the counter of a data frame handed to the radio is not greater than its predecessor's",
+                        json!({"region": reg.name(), "buffer": N, "counter": u0.fcnt, "previous": last, "trace": trace, "step": i}),
+                    );
+                } else {
+                    col.violation(&format!("C06|undecodable-uplink|small-buffer|buf={}", N), "uplink does not decode under the session keys", json!({"frame": hex(&bytes), "trace": trace}));
+                }
+                return;
+            };
+            col.event("uplinks_decoded");
+            last = Some(u.fcnt);
+            up_min = u.fcnt + 1;
+            prev_bytes = Some(bytes);
+        }
+    }
+    col.eval(&format!("small-buffer|{}|buf={}|{}", reg.name(), N, trace.iter().map(|t| t.split(':').next().unwrap_or("")).collect::<Vec<_>>().join(",")));
+}
+
+/// An authentic unconfirmed downlink of `len` octets in all.
+fn d_net_downlink(net: &Net, fcnt: u32, len: usize) -> Vec<u8> {
+    let payload = vec![0x5A; len.saturating_sub(13)];
+    net.downlink(&Down { fcnt, port: Some(9), payload: &payload, ..Default::default() })
 }
